@@ -189,7 +189,10 @@ def validate_trace(trace, module="Trace_Solve.tla", cfg="Trace_Solve.cfg", tag="
     metadir = os.path.join(WORK, "md_" + tag + "_" + os.path.basename(trace))
     env = {"TRACE": trace}
     env.update(rule_env())
-    out, st = tlc(module, cfg, metadir, env_extra=env)
+    # TLC holds the whole trace as TLA+ values: give big shards a bigger heap
+    mb = os.path.getsize(trace) / 1e6
+    opts = JAVA_OPTS if mb < 60 else JAVA_OPTS.replace("-Xmx3g", "-Xmx%dg" % min(10, 3 + int(mb / 25)))
+    out, st = tlc(module, cfg, metadir, env_extra=env, java_opts=opts)
     fails, covers, begins = [], [], []
     notconsumed = None
     for kind, f in parse_reports(out):
